@@ -603,6 +603,25 @@ class Flow:
             return self.assume(facts, ref, truth, depth - 1)
         return facts
 
+    def _restrict(self, facts, ref, av, depth=4):
+        """facts with the value of ref narrowed to av (through value-preserving casts, phi aliases and fresh loads)"""
+        if not ref.startswith("%"):
+            return facts
+        facts = dict(facts)
+        facts[ref] = av
+        i = self.fn.inst(ref)
+        if i is None or depth <= 0:
+            return facts
+        if i.op in ("sext", "bitcast", "freeze") or (i.op == "zext" and all(x >= 0 for x in av[1])):
+            return self._restrict(facts, i["a"], av, depth - 1)
+        if i.op == "load" and ("S", ref) not in facts and not i["ptr"].startswith("@"):
+            facts[("M", self.expr(i["ptr"]))] = av
+        elif i.op == "phi":
+            al = facts.get(("A", ref))
+            if al is not None and al.startswith("%"):
+                return self._restrict(facts, al, av, depth - 1)
+        return facts
+
     def assume(self, facts, ref, truth, depth=6):
         """facts refined with (ref is truth) for an i1 value; False if infeasible"""
         E = Eval(self, facts)
@@ -627,6 +646,22 @@ class Flow:
                     return self.constrain(facts, a, rel, kb, depth - 1)
                 if ka is not None:
                     return self.constrain(facts, b, rel, ka, depth - 1)
+            elif pred in ("slt", "sle", "sgt", "sge", "ult", "ule", "ugt", "uge"):
+                # ordered test against a constant: a finite value set is filtered (retval in {0,-1,-3}, not (retval < 0) => {0})
+                a, b = i["a"], i["b"]
+                va, vb = E.val(a), E.val(b)
+                ka, kb = av_single(va), av_single(vb)
+                p = pred if truth else {"slt": "sge", "sle": "sgt", "sgt": "sle", "sge": "slt", "ult": "uge", "ule": "ugt", "ugt": "ule", "uge": "ult"}[pred]
+                var, vs, k, swap = (a, va, kb, False) if kb is not None else (b, vb, ka, True)
+                if k is not None and vs is not None and vs[0] == "in" and (p[0] == "s" or (k >= 0 and all(x >= 0 for x in vs[1]))):
+                    if swap:
+                        p = {"slt": "sgt", "sle": "sge", "sgt": "slt", "sge": "sle", "ult": "ugt", "ule": "uge", "ugt": "ult", "uge": "ule"}[p]
+                    keep = {"lt": lambda x: x < k, "le": lambda x: x <= k, "gt": lambda x: x > k, "ge": lambda x: x >= k}[p[1:]]
+                    sel = frozenset(x for x in vs[1] if keep(x))
+                    if not sel:
+                        return False
+                    if sel != vs[1]:
+                        return self._restrict(facts, var, ("in", sel))
             return facts
         if op == "xor" and i.get("ty") == "i1":
             for x, y in ((i["a"], i["b"]), (i["b"], i["a"])):
